@@ -539,11 +539,30 @@ def check(run):
         it.stubs["trimesh.transformations:is_rigid"] = lambda itp, args, kw: True
 
         def dec(fr, t, _sizes=sizes):
-            if any(isinstance(c_, ast.Call) and ast.unparse(c_.func) == "isinstance" and len(c_.args) == 2 and ast.unparse(c_.args[0]) == "self" for c_ in ast.walk(t)):
-                return True  # the scaled branch of the four supported kinds (`isinstance(self, kinds) and |s - 1| > tol`)
+            # the case examined is one of the four supported kinds under a scale s that is not 1: tests are evaluated
+            # through their boolean structure (whatever the nesting / De Morgan form), atoms as follows
+            if isinstance(t, ast.BoolOp):
+                vals = [dec(fr, v_, _sizes) for v_ in t.values]
+                return all(vals) if isinstance(t.op, ast.And) else any(vals)
+            if isinstance(t, ast.UnaryOp) and isinstance(t.op, ast.Not):
+                return not dec(fr, t.operand, _sizes)
+            if isinstance(t, ast.Call) and ast.unparse(t.func) == "isinstance" and len(t.args) == 2 and ast.unparse(t.args[0]) == "self":
+                return True
             if isinstance(t, ast.Call) and ast.unparse(t.func) == "hasattr" and len(t.args) == 2 and isinstance(t.args[1], ast.Constant) \
                     and t.args[1].value in ("height", "radius", "extents"):
                 return t.args[1].value in _sizes
+            if isinstance(t, ast.Compare):
+                # a comparison of the scale factor with a tolerance: evaluated at a generic scale (s = 2)
+                if len(t.ops) == 1:
+                    import operator as _op
+                    fn_ = {ast.Lt: _op.lt, ast.LtE: _op.le, ast.Gt: _op.gt, ast.GtE: _op.ge, ast.Eq: _op.eq, ast.NotEq: _op.ne}.get(type(t.ops[0]))
+                    try:
+                        a_, b_ = (sp.powdenest(sp.nsimplify(sp.sympify(fr.ev(x_)), rational=True), force=True).subs(sc, 2)
+                                  for x_ in (t.left, t.comparators[0]))
+                        if fn_ is not None and not a_.free_symbols and not b_.free_symbols:
+                            return bool(fn_(float(a_), float(b_)))
+                    except Exception:  # noqa
+                        pass
             return False
 
         it.decider = dec
